@@ -351,8 +351,8 @@ def _r1(ctx):
             cc = cfg_of(c)
 
             def m(d):
-                return d[0] == "call" and str(d[1]).endswith("::eq") and any(
-                    y[0] == "const" and len(y) > 2 and str(y[2]).endswith("Ipv6Addr::UNSPECIFIED") for a in d[2] for y in subterms(a))
+                return d[0] == "call" and (str(d[1]).endswith("Ipv6Addr::is_unspecified") or (str(d[1]).endswith("::eq") and any(
+                    y[0] == "const" and len(y) > 2 and str(y[2]).endswith("Ipv6Addr::UNSPECIFIED") for a in d[2] for y in subterms(a))))
             for sbb, d, te, fe in bool_switches(P, c, m):
                 for bb, idx, s in c.stmts():
                     if s["p"] == (0,) and "rv" in s:
